@@ -515,6 +515,9 @@ class CallMixin:
         return TupleV(vals)
 
     def havoc_locs(self, locs, env, st):
+        # every location expression designates what it designates BEFORE the call (a clause like
+        # `modifies x.s, elems(T, base(x.s))` speaks about the old backing array)
+        env = env.with_state(st.copy())
         for loc in locs:
             loc = loc.strip()
             if loc == 'heap':
